@@ -378,7 +378,7 @@ pub fn sweep(ctx: &mut Ctx, b: &Base, p: &Proved, rng: &mut ChaCha8Rng, budget: 
         let out = crate::open::run_verifier(&p.st, &p.coms, &vq0, &bytes, &p.parts.f, &p.parts.pi, p.salt);
         ctx.count(&format!("verdict:proof-byteflip:{}", if out.panicked.is_some() { "panic" } else if out.accepted { "accept" } else { "reject" }));
         if out.accepted || out.panicked.is_some() {
-            ctx.oracle_fail(
+            crate::ofail(ctx, 
                 &format!("forgery-accepted:proof-byteflip:{}", crate::open::shape_class(b)),
                 "verification of a proof with one flipped bit succeeds or panics",
                 json!({"k": b.k, "byte": at, "panic": out.panicked, "prove_salt": p.salt}),
